@@ -33,3 +33,8 @@ pub mod h_string_tokens;
 pub mod h_string_kernels;
 // h_string_shapes.rs (ml-basic / ml-literal whole tokens with ONE symbolic content byte) is kept
 // for reference but not compiled: none of its 8 harnesses finishes within 25 min
+#[path = "h_serde_leaves.rs"]
+pub mod h_serde_leaves;
+// h_array.rs (C16 probe: toml_edit::Array as a vector) is kept for reference but not compiled:
+// push / insert / len / get finish (30-40 s) but remove / replace / clear -- anything that moves an
+// `Item` out of the heap buffer or drops one -- do not (> 20 min), so C16 stays not-applicable
